@@ -298,11 +298,33 @@ def clear_resolution_caches():
 
 
 # ------------------------------------------------------------------ storages
+BUILD = {}      # construction variant of the case being run: {'config': bool, 'pool': n, 'cache': n}
+
+
+def _config_section(k, path, name):
+    if k == 'file':
+        return '<filestorage %s>\n path %s\n create true\n read-only false\n pack-keep-old false\n</filestorage>' % (name, path)
+    return '<mappingstorage %s>\n name %s\n</mappingstorage>' % (name, name or 'main')
+
+
 def make_storage(kind, tmpdir, tag):
-    """kind: file | mapping | demo:<changes>:<base>; returns (storage, base_storage or None)"""
+    """kind: file | mapping | mvccmapping | demo:<changes>:<base> | hex:<kind>; returns (storage, base
+    storage or None).  With BUILD['config'] the storage is built by ZODB.config.storageFromString."""
     from ZODB.FileStorage import FileStorage
     from ZODB.MappingStorage import MappingStorage
     from ZODB.DemoStorage import DemoStorage
+
+    if BUILD.get('config') and kind in ('file', 'mapping', 'demo:file:mapping', 'demo:mapping:mapping',
+                                        'demo:file:file', 'demo:mapping:file'):
+        import ZODB.config
+        parts = kind.split(':')
+        if parts[0] != 'demo':
+            return ZODB.config.storageFromString(
+                _config_section(parts[0], os.path.join(tmpdir, '%s-main.fs' % tag), '')), None
+        st = ZODB.config.storageFromString('<demostorage>\n%s\n%s\n</demostorage>' % (
+            _config_section(parts[2], os.path.join(tmpdir, '%s-base.fs' % tag), 'base'),
+            _config_section(parts[1], os.path.join(tmpdir, '%s-changes.fs' % tag), 'changes')))
+        return st, st.base
 
     if kind == 'mvccmapping':
         # the bundled natively-MVCC storage: the DB uses it WITHOUT the MVCC adapter, one instance per
@@ -576,14 +598,20 @@ class StorageRunner:
         from ZODB.FileStorage import FileStorage
         from ZODB.DemoStorage import DemoStorage
         st = self.storage
+        self.reopens = getattr(self, 'reopens', 0) + 1
+
+        def again(path):
+            if self.reopens % 3 == 0 and os.path.exists(path + '.index'):
+                os.remove(path + '.index')          # every third reopen rebuilds the index by a full scan
+            return FileStorage(path)
         if isinstance(st, FileStorage):
             path = st._file_name
             st.close()
-            self.storage = FileStorage(path)
+            self.storage = again(path)
         elif isinstance(st, DemoStorage) and isinstance(st.changes, FileStorage):
             path = st.changes._file_name
             st.changes.close()
-            self.storage = DemoStorage(base=st.base, changes=FileStorage(path))
+            self.storage = DemoStorage(base=st.base, changes=again(path))
 
     def close(self):
         # release whatever is still held so that pending threads end
